@@ -51,6 +51,8 @@ fn main() {
         ("replay", "stream") => props::stream::replay(&args),
         ("drive", "stream") => props::stream::drive(&args),
         ("drive", "families") => props::families::drive(&args),
+        ("replay", "stored_formula") => props::stored_formula::replay(&args),
+        ("drive", "stored_formula") => props::stored_formula::drive(&args),
         ("replay", "bin_text") => props::bin_text::replay(&args),
         ("drive", "bin_text") => props::bin_text::drive(&args),
         ("replay", "xls_merge") => props::xls_merge::replay(&args),
